@@ -27,6 +27,19 @@ CLAIMS = {
         ref="DESIGN.md §7 C19"),
 }
 
+CLAIMS["C04"] = dict(
+    text="MQTT 3.1.1 part fully proved (Props/C04.v): for every well-formed packet of all 14 types and both crates' codecs (flavour Client/Broker), write succeeds, the number of bytes written equals the reported size, and read of those bytes followed by any rest returns exactly the (normalised) packet and the rest; client bytes decode in the broker to the same content and vice versa (c04_interop_v4); remaining-length codec round trip for all n <= 268435455 with the len_len boundaries. The four Rust codecs' v4 halves are tied to the model by byte-exact comparison of encoders and decoders on structured packets (all types, flags, QoS, ids, string sizes 0/1/127/128/65535, payloads straddling every remaining-length width) plus a round-trip monitor on the real code. MQTT 5 packets are NOT yet covered by a model or theorem (see evidence coverage.not_covered).",
+    note="PARTIAL: MQTT 5 codecs not modelled yet (under construction); v4 complete. Round trip is stated up to `norm` (broker-only struct fields such as reason codes are not on the v4 wire); asymmetries between the crates are pinned as Examples. Trusted: Coq kernel, extraction, harness canonical packet text (field-by-field).",
+    ref="DESIGN.md §7 C04")
+CLAIMS["C05"] = dict(
+    text="MQTT 3.1.1 part fully proved (Props/C05.v) for both crates' decoders: read never panics on any byte string and any max size; a packet/malformed result consumes exactly the declared frame (never beyond); a declared length above max is rejected from the header alone; NeedMore only while the header or the declared frame is incomplete, with 1 <= k <= missing; results are stable under appended bytes; the buffered decode loop yields the same packet sequence and terminal error for every chunking of the stream. Tied to the code by exhaustive header grammars, all byte strings up to 3 bytes (thorough), truncations and mutations of valid packets, and streams through the real tokio_util Framed<_, Codec> and rumqttd Network::read/readv over duplex pipes, compared with the model's feed loop. MQTT 5 decoders are NOT yet covered.",
+    note="PARTIAL: MQTT 5 decoders not modelled yet. Assumes tokio_util::Framed calls decode on the accumulated buffer after every read (as the model's feed loop does) — this is what the STREAM correspondence ops check.",
+    ref="DESIGN.md §7 C05")
+CLAIMS["C01"] = dict(
+    text="Safety part proved on Router.Model for ALL op sequences from init (Props/C01.v): every entry of the commit log of filter f is a publish whose topic matches f by the MQTT rule (C12's matches) with retain=false, the filter index and topic->filters cache only name existing logs with matching filters (c01_log_invariant), and whatever one sweep of a data request adds to any link buffer, every log-sourced forward is a stored entry of that request's log with its stored payload and topic (or an empty topic when a topic alias stands for it) — nothing unmatched, original topic/payload (c01_forward_matches). Exactly-once per matching subscription, acceptance order and completeness at quiescence are not yet theorems: they are decided on the implementation's traces by the monitor (router_mon: per-link multiset/order/completeness against its own ghost of accepted messages and subscription spans) over histories generated interactively against the real router, each replayed through the extracted model.",
+    note=ROUTER_NOTE + " PARTIAL: exactness/order/completeness clauses are monitor-checked, not proved; the link between a request's log and the subscription filter that created it (RInv 2) is not yet an invariant theorem.",
+    ref="DESIGN.md §7 C01")
+
 ROUTER_PROPS = {
     "C01": "exact ordered delivery to matching subscriptions",
     "C03": "no client behaviour can crash the routing core",
